@@ -201,3 +201,7 @@ func main() {
 		os.Exit(2)
 	}
 }
+
+func init() {
+	exitNow = os.Exit
+}
